@@ -526,7 +526,8 @@ def _run_combo(inp, fail):
                 return
         psi = qutip.tensor([qutip.basis(d, 0) for d in p.dims])
         res = qutip.mesolve(H, psi * psi.dag(), np.linspace(0, tmax, 4), c_ops=c_ops,
-                            options={"progress_bar": False, "max_step": max(tmax / 10, 1e-3), "nsteps": 100000})
+                            options={"progress_bar": False, "max_step": max(tmax / 10, 1e-3), "nsteps": 1000000,
+                                     "atol": 1e-11, "rtol": 1e-9})   # solver tolerance chosen by the oracle
         for st in res.states:
             bad = _physical(st, 1e-5)
             if bad:
